@@ -208,34 +208,42 @@ def xmlQName (nsmap : List (Option String × String)) (s : String) : Except Err 
     | none => viaDefault
   | none => viaDefault
 
+/-- the name under which lxml reports a child element (`prefix:local`, or the bare local name) -/
+def xmlNameStr (sub : XNode) : String :=
+  match sub.pfx with
+  | some p => if p == "" then sub.loc else p ++ ":" ++ sub.loc
+  | none => sub.loc
+
+/-- one XML attribute of a child element seen by the loop of `_extract_attributes` -/
+def xmlValueStep (sub : XNode) (text : String) (acc : Except Err ArgVal) (a : (String × String) × String) : Except Err ArgVal :=
+  match acc with
+  | .error e => .error e
+  | .ok cur =>
+    if a.1 == (xsiUri, "type") then
+      match xmlQName sub.nsmap a.2 with
+      | .error e => .error e
+      | .ok dt =>
+        if dt.uri == xsdUri ++ "QName" then
+          (xmlQName sub.nsmap text).map (fun q => ArgVal.val (.qn q))
+        else .ok (.val (.lit text (some dt) none))
+    else if a.1 == (provUri, "ref") then
+      (xmlQName sub.nsmap a.2).map (fun q => ArgVal.val (.qn q))
+    else if a.1 == (xmlUri, "lang") then
+      -- Literal(text, langtag=value): a truthy language tag forces prov:InternationalizedString
+      if a.2 == "" then .ok (.val (.lit text none (some "")))
+      else .ok (.val (.lit text (some (provQ "InternationalizedString")) (some a.2)))
+    else .ok cur
+
+/-- the value `_extract_attributes` makes of one child element: its text, reinterpreted by xsi:type / prov:ref / xml:lang -/
+def xmlValue (sub : XNode) : Except Err ArgVal :=
+  sub.attrs.foldl (xmlValueStep sub (sub.text.getD "")) (.ok (.val (.str (sub.text.getD ""))))
+
 /-- `_extract_attributes(element)` for one child element -/
 def extractAttr (sub : XNode) : Except Err (QName × ArgVal) :=
-  let nameStr := match sub.pfx with
-    | some p => if p == "" then sub.loc else p ++ ":" ++ sub.loc
-    | none => sub.loc
-  match xmlQName sub.nsmap nameStr with
+  match xmlQName sub.nsmap (xmlNameStr sub) with
   | .error e => .error e
   | .ok t =>
-    let text := sub.text.getD ""
-    let step (acc : Except Err ArgVal) (a : (String × String) × String) : Except Err ArgVal :=
-      match acc with
-      | .error e => .error e
-      | .ok cur =>
-        if a.1 == (xsiUri, "type") then
-          match xmlQName sub.nsmap a.2 with
-          | .error e => .error e
-          | .ok dt =>
-            if dt.uri == xsdUri ++ "QName" then
-              (xmlQName sub.nsmap text).map (fun q => ArgVal.val (.qn q))
-            else .ok (.val (.lit text (some dt) none))
-        else if a.1 == (provUri, "ref") then
-          (xmlQName sub.nsmap a.2).map (fun q => ArgVal.val (.qn q))
-        else if a.1 == (xmlUri, "lang") then
-          -- Literal(text, langtag=value): a truthy language tag forces prov:InternationalizedString
-          if a.2 == "" then .ok (.val (.lit text none (some "")))
-          else .ok (.val (.lit text (some (provQ "InternationalizedString")) (some a.2)))
-        else .ok cur
-    match sub.attrs.foldl step (.ok (.val (.str text))) with
+    match xmlValue sub with
     | .ok v => .ok (t, v)
     | .error e => .error e
 
